@@ -112,6 +112,13 @@ def evaluate(ctx, cases, obs, use_model=True):
         if base.get('status') == 'harness-error':
             ctx.tie_break('harness: observer failed: %s' % base.get('msg'), {'gen_seed': c['gen_seed']})
             continue
+        # ---- the equation  zsq = zneg * k * k  is written with the literal k twice: two numbers must survive
+        if base.get('status') == 'ok' and isinstance(base.get('eq_numbers'), list):
+            for lhs, nums in base['eq_numbers']:
+                if lhs.endswith('$zsq') and len(nums) != 2:
+                    ctx.violation('document %s: the equation for %s is written with two number literals, the loaded '
+                                  'equation holds %d number(s): %r' % (c['gen_seed'], lhs, len(nums), nums),
+                                  {'kind': 'structure', 'gen_seed': c['gen_seed'], 'doc': c['doc']})
         # ---- (a) four hash seeds
         for s in SEEDS[1:]:
             o = ob['seeds'][s]
